@@ -23,19 +23,19 @@ None == [has |-> FALSE]
 JudgeRun(e) ==
     LET W == e.W
         out == e.out
-        ex == Expected(W)
-        cons == Conservation(W, out) IN
+        cons == Conservation(W, out)
+        I(n) == IdxOf(W, out[n].rest) IN
     /\ Check(e, "Returns", e.exc = "")
-    /\ Check(e, "Premise", CloudsSeparated(W))
+    /\ Check(e, "Premise", CloudsSeparated(W) /\ RestUnique(W))
     /\ e.exc = "" =>
         /\ Check(e, "Conservation", cons)
         /\ Check(e, "TagShape", \A n \in DOMAIN out : TagShape(out[n]))
-        \* the per-alignment clauses need the correspondence out[n] <-> aln[ex[n]]
-        /\ Len(out) = Len(ex) =>
-            /\ Check(e, "Decision", \A n \in DOMAIN out : Decision(W, ex[n], out[n]))
-            /\ Check(e, "UntaggedWhen", \A n \in DOMAIN out : UntaggedWhen(W, ex[n], out[n]))
-            /\ Check(e, "IneligibleUntagged", \A n \in DOMAIN out : IneligibleUntagged(W, ex[n], out[n]))
-            /\ Check(e, "TaggedWhen", \A n \in DOMAIN out : TaggedWhen(W, ex[n], out[n]))
+        \* the per-alignment clauses need the correspondence between written and input alignments
+        /\ ExactlyOnce(W, out) =>
+            /\ Check(e, "Decision", \A n \in DOMAIN out : Decision(W, I(n), out[n]))
+            /\ Check(e, "UntaggedWhen", \A n \in DOMAIN out : UntaggedWhen(W, I(n), out[n]))
+            /\ Check(e, "IneligibleUntagged", \A n \in DOMAIN out : IneligibleUntagged(W, I(n), out[n]))
+            /\ Check(e, "TaggedWhen", \A n \in DOMAIN out : TaggedWhen(W, I(n), out[n]))
 
 JudgeSwap(e) ==
     IF e.swap = <<>> THEN TRUE
